@@ -29,19 +29,24 @@ theorem matchPattern_identStart (env : Env) (prev : Option Char) (c : Char) (t :
   have ne := fun x (hx : isIdentStartA x = false) => identStart_ne c x h hx
   unfold matchPattern
   simp only [Bool.false_eq_true, if_false, Env.isDigit, Env.digit?, ha, hd, if_true, Option.isSome_none,
-    ne '=' (by decide), ne '-' (by decide), ne '/' (by decide), ne ':' (by decide), ne '→' (by decide), ne '<' (by decide),
+    ne '=' (by decide), ne '-' (by decide), ne '"' (by decide)]
+  by_cases h1 : c = 'v'
+  · subst h1; simp [matchKeyword, hv rfl]
+  by_cases h2 : c = 't'
+  · subst h2; simp [matchKeyword, ht rfl]
+  by_cases h3 : c = 'f'
+  · subst h3; simp [matchKeyword, hf rfl]
+  by_cases h4 : c = 'n'
+  · subst h4; simp [matchKeyword, hn rfl]
+  have e1 : (c == 'v') = false := by simpa using h1
+  have e2 : (c == 't') = false := by simpa using h2
+  have e3 : (c == 'f') = false := by simpa using h3
+  have e4 : (c == 'n') = false := by simpa using h4
+  simp only [e1, e2, e3, e4, Bool.or_self, Bool.false_eq_true, if_false, matchPunct, singleCharType,
+    ne '/' (by decide), ne ':' (by decide), ne '→' (by decide), ne '<' (by decide),
     ne '⊕' (by decide), ne '⧺' (by decide), ne '~' (by decide), ne '@' (by decide), ne '⇌' (by decide), ne '∨' (by decide),
     ne '|' (by decide), ne '∧' (by decide), ne '&' (by decide), ne '§' (by decide), ne '[' (by decide), ne ']' (by decide),
-    ne ',' (by decide), ne '"' (by decide), ne '#' (by decide), ne '$' (by decide), ne '\n' (by decide)]
-  by_cases h1 : c = 'v'
-  · subst h1; simp [hv rfl]
-  by_cases h2 : c = 't'
-  · subst h2; simp [ht rfl]
-  by_cases h3 : c = 'f'
-  · subst h3; simp [hf rfl]
-  by_cases h4 : c = 'n'
-  · subst h4; simp [hn rfl]
-  simp [h1, h2, h3, h4]
+    ne ',' (by decide), ne '#' (by decide), ne '$' (by decide), ne '\n' (by decide), Option.map_none]
 
 theorem lit_eq {p s r : Str} (h : lit p s = some r) : s = p ++ r := by
   induction p generalizing s with
